@@ -12,22 +12,24 @@ import logging
 logging.disable(logging.CRITICAL)
 
 
-def thorough_parallel(prop, seed, nworkers):
+def thorough_parallel(prop, seed, nworkers, tier="thorough", split=True, changed_units=None):
     """Thorough tier: the case space is split over worker processes (each also draws its own random stream);
-    the parent does the build and the proof gate once and merges coverage, violations and known findings."""
+    the parent does the build and the proof gate once and merges coverage, violations and known findings.
+    With tier="quick", split=False this is the change-triggered deepening of the quick tier: every worker runs the whole
+    quick case set with its own seed (worker 0 keeps the caller's seed)."""
     import subprocess
     import tempfile
     import time
     t0 = time.time()
-    v = common.Verdict(prop, "thorough", seed)
+    v = common.Verdict(prop, tier, seed)
     common.proof_gate(v, prop, getattr(importlib.import_module(f"harness.{prop.lower()}"), "EXTRA_PROPS", ()))
     outs, procs = [], []
     tmpd = tempfile.mkdtemp(prefix="cfdp-verif-w", dir="/dev/shm")
     for i in range(nworkers):
         out = os.path.join(tmpd, f"w{i}.json")
-        env = dict(os.environ, VERIF_WORKERS=str(nworkers), VERIF_WORKER=str(i), VERIF_WORKER_OUT=out,
-                   VERIF_SKIP_GATE="1", VERIF_SEED=str(seed * 1000 + i))
-        procs.append(subprocess.Popen([sys.executable, "-m", "harness.main", prop, "thorough"], env=env,
+        env = dict(os.environ, VERIF_WORKERS=str(nworkers if split else 1), VERIF_WORKER=str(i if split else 0), VERIF_WORKER_OUT=out,
+                   VERIF_SKIP_GATE="1", VERIF_SEED=str(seed if (i == 0 and not split) else seed * 1000 + i))
+        procs.append(subprocess.Popen([sys.executable, "-m", "harness.main", prop, tier], env=env,
                                       stdout=subprocess.DEVNULL, stderr=subprocess.PIPE, text=True))
         outs.append(out)
     sigs = set()
@@ -72,6 +74,10 @@ def thorough_parallel(prop, seed, nworkers):
     v.coverage["distribution"] = dist
     v.coverage["samples"] = samples or [{"note": "see worker output"}]
     v.coverage["workers"] = nworkers
+    if changed_units:
+        v.coverage["changed_units"] = changed_units[:40]
+        v.coverage["deepened"] = (f"{len(changed_units)} unit(s) of this property's anchor files differ from the fingerprinted tree: "
+                                  f"the quick case set was run with {nworkers} independent seeds")
     v.coverage.setdefault("evaluations", totals.get("evaluations", 0))
     if getattr(v, "proof_error", None) and not v.violations:
         v.violation(v.proof_error, {"theorem": f"props/{prop}.v", "error": v.proof_error}, has_input=False)
@@ -101,6 +107,15 @@ def main(argv):
     nworkers = int(os.environ.get("VERIF_THOROUGH_WORKERS", "8"))
     if tier == "thorough" and nworkers > 1 and not os.environ.get("VERIF_WORKER_OUT") and getattr(mod, "PARALLEL", True):
         return thorough_parallel(prop, seed, nworkers)
+    if tier == "quick" and not os.environ.get("VERIF_WORKER_OUT") and not os.environ.get("VERIF_NO_DEEPEN"):
+        try:
+            from harness import fingerprint
+            ch = fingerprint.changed_for(prop)
+        except Exception:  # noqa: BLE001
+            ch = []
+        if ch:
+            return thorough_parallel(prop, seed, int(os.environ.get("VERIF_DEEPEN_SEEDS", "4")), tier="quick", split=False,
+                                     changed_units=ch)
     try:
         return mod.run(tier, seed)
     except Exception:  # noqa: BLE001
